@@ -36,7 +36,7 @@ class AtomicPart:
         nrand = self.random_execs[0 if tier == "quick" else 1]
         for scn in self.scenarios:
             runs = [vlib.run_rt(exe, scn, "dfs", p["preemptions"], p["max_execs"], seed, extra=self.harness_args)]
-            if nrand:
+            if nrand and runs[0]["rc"] != -1:      # a scenario that already hung is not run again
                 runs.append(vlib.run_rt(exe, scn, "random", 0, nrand, seed, extra=self.harness_args))
                 runs.append(vlib.run_rt(exe, scn, "pct", 3, nrand, seed + 7, extra=self.harness_args))
             if self.on_runs:
